@@ -5,7 +5,7 @@ MAIN = os.path.join(vlib.HARNESS, 'c03_ntt.cpp')
 
 
 def build(ctx, only_step=None):
-    src = [os.path.join(vlib.SRC, f) for f in ('ntt_goldilocks.cpp', 'goldilocks_base_field.cpp')]
+    src = [os.path.join(vlib.SRC, f) for f in ('goldilocks_base_field.cpp',)]  # ntt_goldilocks.cpp is #included by the harness
     ctx.bins = ctx.compile_many([('ntt_cfg', [MAIN] + src, ctx.flags_native(extra=['-I' + vlib.HARNESS]), ['-lgmp'])])
 
 
